@@ -211,12 +211,18 @@ def run_case(ctx, rng, index, casedir):
             nodes = sorted({n for wk in walks for n, _ in wk})
             q = rng.sample(nodes, min(3, len(nodes)))
             line_index = {l: i for i, l in enumerate(lines)}
+            touch = rng.random() < 0.4  # every copy of the GAF gets a newer modification time than its index
+            if touch:
+                sit["gaf_newer_than_index_cases"] += 1
             for label, gaf, gfa in cfgs:
                 o = run_cli(["index", gaf, gfa])
                 evals += 1
                 if not o.ok:
                     assoc.append((label, f"<{o.brief()}>"))
                     continue
+                if touch:
+                    import time as _t
+                    os.utime(gaf, (_t.time() + 30, _t.time() + 30))
                 with open(gaf + ".gvi", "rb") as f:
                     ind = pickle.load(f)
                 ind.pop("ref_contig", None)
